@@ -57,6 +57,7 @@ def relation_traces(ctx, T):
         centres += [(float(v), "intlist") for v in (-3, -2, -1, 1, 2, 3, 5, 8) if lo < v < hi][:3]
         for x, how in centres:
             k = int(math.floor(math.log2(abs(x) / 64.0))) if x != 0 else -10
+            k = min(k, int(math.floor(math.log2(min(x - lo, hi - x) / 16.0))))      # close to an end of the grid (a singular end of the domain): step from the distance to it
             k = min(k, int(math.floor(math.log2((hi - lo) / 128.0))))      # narrow domains (Logit between bounds far from zero): step from the width
             h = 2.0 ** k
             if x - 2 * h <= lo or x + 2 * h >= hi or any(abs(x - b) <= 4 * h for b in bps):
